@@ -1,12 +1,24 @@
 package psshd
 
 import (
+	"context"
 	"fmt"
+	"os"
+	"path/filepath"
 	"runtime"
 	"strings"
 	"sync"
 	"sync/atomic"
+	"syscall"
+	"time"
 	"unicode/utf8"
+
+	"go.uber.org/zap"
+
+	"github.com/metal-toolbox/audito-maldito/ingesters/namedpipe"
+	"github.com/metal-toolbox/audito-maldito/ingesters/syslog"
+	"github.com/metal-toolbox/audito-maldito/internal/health"
+	"github.com/metal-toolbox/audito-maldito/processors/sshd"
 
 	"github.com/metal-toolbox/audito-maldito/internal/verif/mc"
 )
@@ -155,45 +167,191 @@ func extraSpaced() []Exp {
 	return out
 }
 
+// framing is one way of writing (pid, message) onto the sshd pipe.
+type framing struct {
+	tag  string
+	msg  func(m string) string      // the message the processor must see
+	line func(pid, m string) string // the bytes written to the pipe
+}
+
+var framings = []framing{
+	{"newline", func(m string) string { return m }, func(p, m string) string { return p + " " + m + "\n" }},
+	{"padding", func(m string) string { return m }, func(p, m string) string { return p + "   " + m + "\n" }},
+	// the message's own trailing blank / tab / CR belongs to the record, only the newline frames it
+	{"trailing-blank", func(m string) string { return m + " " }, func(p, m string) string { return p + " " + m + " \n" }},
+	{"trailing-tab", func(m string) string { return m + "\t" }, func(p, m string) string { return p + " " + m + "\t\n" }},
+	{"trailing-cr", func(m string) string { return m + "\r" }, func(p, m string) string { return p + " " + m + "\r\n" }},
+}
+
+type c07case struct {
+	form, pid, msg, line, tag string
+}
+
+// throughPipe writes the lines to a real FIFO read by the real SyslogIngester.Ingest (named-pipe
+// ingester -> syslog ingester -> sshd processor) and returns everything the batch produced.
+func throughPipe(dir string, lines []string) (o obs) {
+	path := filepath.Join(dir, fmt.Sprintf("sshd-pipe-%d", atomic.AddInt64(&pipeSeq, 1)))
+	if err := syscall.Mkfifo(path, 0o600); err != nil {
+		panic(err)
+	}
+	defer os.Remove(path)
+	r := newRig(len(lines) + 8)
+	ing := syslog.NewSyslogIngester(path, r.proc, namedpipe.NewNamedPipeIngester(zap.NewNop().Sugar(), health.NewHealth()))
+	ctx, cancel := context.WithCancel(context.Background())
+	defer cancel()
+	before := r.counters()
+	done := make(chan error, 1)
+	go func() {
+		defer func() {
+			if p := recover(); p != nil {
+				o.Panic = p
+				done <- nil
+			}
+		}()
+		done <- ing.Ingest(ctx)
+	}()
+	w, err := os.OpenFile(path, os.O_WRONLY, 0)
+	if err != nil {
+		panic(err)
+	}
+	_, _ = w.WriteString(strings.Join(lines, ""))
+	w.Close()
+	select {
+	case <-done:
+	case <-time.After(60 * time.Second):
+		o.Panic = "the ingester did not return after the writer closed the pipe"
+		cancel()
+		<-done
+	}
+	o.Events = append(o.Events, r.rec.copies...)
+	for {
+		select {
+		case l := <-r.logins:
+			o.Logins = append(o.Logins, l)
+			continue
+		default:
+		}
+		break
+	}
+	o.Metrics = delta(before, r.counters())
+	return o
+}
+
+var pipeSeq int64
+
+// direct processes the (pid, message) pairs one after the other with the real processor.
+func direct(cases []c07case) (o obs) {
+	r := newRig(len(cases) + 8)
+	before := r.counters()
+	for _, c := range cases {
+		func() {
+			defer func() {
+				if p := recover(); p != nil {
+					o.Panic = p
+				}
+			}()
+			if err := r.proc.ProcessSshdLogEntry(context.Background(), sshd.SshdLogEntry{PID: c.pid, Message: c.msg}); err != nil && o.Err == nil {
+				o.Err = err
+			}
+		}()
+		o.Events = append(o.Events, r.rec.copies...)
+		r.rec.ptrs, r.rec.copies = nil, nil
+	}
+	for {
+		select {
+		case l := <-r.logins:
+			o.Logins = append(o.Logins, l)
+			continue
+		default:
+		}
+		break
+	}
+	o.Metrics = delta(before, r.counters())
+	return o
+}
+
 func runC07(run *mc.Run) int {
 	s := fieldSets(run.Thorough())
 	var sm sampler
-	var differ int64
+	var differ, batches int64
 	replayLine, replayPid := loadLineReplay(run)
 	if replayLine != "" {
 		return replayOne(run, replayLine, replayPid)
 	}
-	n, complete := parallel(func(emit func(item)) {
-		for _, p := range pidTokens[:2] {
-			forms(s, func(x Exp) { emit(item{x: x, pid: p}) })
-			for _, x := range extraSpaced() {
-				emit(item{x: x, pid: p})
-			}
+	dir := os.Getenv("VERIF_BUILD")
+	if dir == "" {
+		dir = os.TempDir()
+	}
+	dir = filepath.Join(dir, "c07-fifos")
+	_ = os.MkdirAll(dir, 0o755)
+	// all cases
+	var all []c07case
+	add := func(x Exp, p string) {
+		for _, fr := range framings {
+			all = append(all, c07case{x.Form, p, fr.msg(x.Line), fr.line(p, x.Line), fr.tag})
 		}
-	}, func(r *rig, it item) {
-		sm.add(it.x.Form, it.pid+" "+it.x.Line+"\\n")
-		for _, fr := range []struct{ tag, msg, framed string }{
-			{"newline", it.x.Line, it.pid + " " + it.x.Line + "\n"},
-			{"padding", it.x.Line, it.pid + "   " + it.x.Line + "\n"},
-			// the message's own trailing blank / tab / CR belongs to the record, only the newline frames it
-			{"trailing-blank", it.x.Line + " ", it.pid + " " + it.x.Line + " \n"},
-			{"trailing-tab", it.x.Line + "\t", it.pid + " " + it.x.Line + "\t\n"},
-			{"trailing-cr", it.x.Line + "\r", it.pid + " " + it.x.Line + "\r\n"},
-		} {
-			a := r.run(true, it.pid, fr.msg, "")
-			b := r.run(false, "", "", fr.framed)
-			if a.canon() != b.canon() {
-				atomic.AddInt64(&differ, 1)
-				run.Violation("C07:"+it.x.Form+":"+fr.tag, map[string]any{"pid": it.pid, "line": it.x.Line, "framed": fr.framed},
-					fmt.Sprintf("(pid %q, message %q) handed to the processor directly gives\n%sbut the line %q delivered through the syslog ingester gives\n%s", it.pid, fr.msg, a.canon(), fr.framed, b.canon()))
-			}
+		sm.add(x.Form, p+" "+x.Line+"\\n")
+	}
+	for _, p := range pidTokens[:2] {
+		forms(s, func(x Exp) { add(x, p) })
+		for _, x := range extraSpaced() {
+			add(x, p)
 		}
-	}, run.Expired)
+	}
+	const batch = 400
+	var wg sync.WaitGroup
+	jobs := make(chan []c07case, 64)
+	complete := true
+	compare := func(cs []c07case) bool {
+		var lines []string
+		for _, c := range cs {
+			lines = append(lines, c.line)
+		}
+		a, b := direct(cs), throughPipe(dir, lines)
+		return a.canon() == b.canon()
+	}
+	for wk := 0; wk < runtime.GOMAXPROCS(0); wk++ {
+		wg.Add(1)
+		go func() {
+			defer wg.Done()
+			for cs := range jobs {
+				atomic.AddInt64(&batches, 1)
+				if compare(cs) {
+					continue
+				}
+				// locate the lines that differ: each one alone
+				for _, c := range cs {
+					one := []c07case{c}
+					a, b := direct(one), throughPipe(dir, []string{c.line})
+					if a.canon() != b.canon() {
+						atomic.AddInt64(&differ, 1)
+						run.Violation("C07:"+c.form+":"+c.tag, map[string]any{"pid": c.pid, "line": c.msg, "framed": c.line},
+							fmt.Sprintf("(pid %q, message %q) handed to the processor directly gives\n%sbut the line %q delivered through the pipe into the syslog ingester gives\n%s", c.pid, c.msg, a.canon(), c.line, b.canon()))
+					}
+				}
+			}
+		}()
+	}
+	for i := 0; i < len(all); i += batch {
+		if run.Expired() {
+			complete = false
+			break
+		}
+		j := i + batch
+		if j > len(all) {
+			j = len(all)
+		}
+		jobs <- all[i:j]
+	}
+	close(jobs)
+	wg.Wait()
+	n := len(all)
 	// audit side: every record line of the audit generator parses identically with and without its newline
 	na, bad := auditLinesSame(run)
-	cov := mc.Coverage{Level: "exploration", Evaluations: int(n)*10 + na*2, Distinct: int(n) + na, Exhaustive: complete, Samples: sm.samples,
-		Rule:  "differential: every (pid,message) of the C06 product (+ messages with internal runs of blanks) is processed once directly by the real sshd processor and once as the framed line '<pid> <message>\\n' (also with 3 padding blanks) by the real SyslogIngester.Process; events (minus wall-clock stamp), forwarded logins, counter deltas and errors must be equal. Every generated audit record line is parsed by auparse with and without its trailing newline. distinct_nontrivial = distinct (pid,message) pairs + distinct audit lines",
-		Extra: map[string]any{"lines_per_form": sm.forms, "framings": []string{"newline", "padding+newline", "message ending in blank / tab / CR + newline"}, "pairs_that_differ": differ, "audit_lines": na, "audit_lines_differing": bad}}
+	cov := mc.Coverage{Level: "exploration", Evaluations: n*2 + na*2, Distinct: n/len(framings) + na, Exhaustive: complete, Samples: sm.samples,
+		Rule:  "differential, end to end: every (pid,message) of the C06 product (+ messages with internal runs of blanks) is processed once directly by the real sshd processor and once written as a framed line to a real FIFO read by the real SyslogIngester.Ingest (named-pipe ingester -> syslog ingester -> processor); framings: '<pid> <msg>\\n', 3 padding blanks, and the message ending in blank / tab / CR; lines go in batches of 400, a differing batch is re-run line by line; events (minus wall-clock stamp), forwarded logins, counter deltas and errors must be equal. Every generated audit record line is parsed by auparse with and without its trailing newline. distinct_nontrivial = distinct (pid,message) pairs + distinct audit lines",
+		Extra: map[string]any{"lines_per_form": sm.forms, "framings": len(framings), "batches": batches, "pairs_that_differ": differ, "audit_lines": na, "audit_lines_differing": bad}}
+	cov.Assumptions = []string{"which layer strips the record terminator is not assumed: the framed path starts at the pipe"}
 	return run.Finish(cov)
 }
 
